@@ -8,7 +8,8 @@ F_BIN = "yash_arith::eval::binary_result"
 
 def setup(w):
     w.inject("yash-arith/src/eval.rs", "c03_eval.rs")
-    return core.KaniSession(w, w.ws, pkg="yash-arith", tag="arith")
+    w.inject("yash-arith/src/ast.rs", "c03_ast.rs")
+    return core.KaniSession(w, w.ws, pkg="yash-arith", tag="arith", zflags=["stubbing"])
 
 
 M = "eval::verif_c03_eval"
@@ -25,7 +26,98 @@ def harnesses(tier):
         Harness("c03_divrem_bounded", "operands in [-256,255] ∪ {MIN,MIN+1,MAX-1,MAX}; op in {/,/=,%,%=}",
                 [F_BIN], "quotient/remainder or DivisionByZero/Overflow", timeout=1200, mod=M),
     ]
+    MA = "ast::verif_c03_ast"
+    P = ["yash_arith::ast::parse", "yash_arith::ast::parse_tree", "yash_arith::ast::parse_leaf", "yash_arith::ast::parse_postfix",
+         "yash_arith::ast::parse_binary_rhs", "yash_arith::token::PeekableTokens::next", "yash_arith::token::PeekableTokens::peek"]
+    T = ["yash_arith::ast::Operator::precedence", "yash_arith::ast::Operator::as_binary", "yash_arith::ast::Operator::as_prefix",
+         "yash_arith::ast::Operator::as_postfix"]
+    stub = ["yash_arith::token::Tokens::next_token -> token queue (the text tokenizer is outside; the parser consumes symbolic tokens)"]
+    hs += [
+        Harness("c03_operator_tables", "every pair of the 37 operator tokens", T,
+                "precedence and associativity follow ISO C 6.5; each token denotes its C operator", timeout=600, mod=MA),
+        Harness("c03_parse_shape_binary", "token sequences '1 a 2 b 3' for every pair (a, b) of the 29 binary operators", P + T,
+                "the real parser groups by C precedence and associativity", timeout=1500, mod=MA, stubs=stub),
+        Harness("c03_parse_shape_conditional", "'1 a 2 ? 3 : 4' and '1 ? 2 : 3 a 4' for every binary operator a", P + T,
+                "?: binds between assignment and ||, else-branch extends right", timeout=1500, mod=MA, stubs=stub),
+        Harness("c03_parse_shape_unary", "'p 1 a 2' for every prefix operator p and binary operator a", P + T,
+                "unary operators bind tighter than binary ones", timeout=1500, mod=MA, stubs=stub),
+    ]
+    for n in (1, 2, 3) + ((4,) if tier == "thorough" else ()):
+        hs.append(Harness("c03_parse_total_%d" % n,
+                          "every sequence of %d tokens, each any i64 constant, a variable, or any of the 37 operators" % n,
+                          P + ["yash_arith::eval::eval"],
+                          "parser total (tree or syntax error, no panic); every tree it returns evaluates without a panic",
+                          timeout=2400, mod=MA, stubs=stub))
     return hs
+
+
+def run_e3(w, out):
+    """E3: MIR -> SMT for binary_result, all 29 operators, full 64-bit (incl. / and %)."""
+    import json
+    import os
+    env = dict(core.ENV)
+    env["CARGO_TARGET_DIR"] = os.path.join(w.root, "target-mir")
+    mir = os.path.join(w.root, "arith.mir")
+    import subprocess
+    p = subprocess.run(["cargo", "+nightly", "rustc", "--offline", "--lib", "--", "-Zunpretty=mir",
+                        "-C", "debug-assertions=off", "-C", "overflow-checks=on"],
+                       cwd=os.path.join(w.ws, "yash-arith"), env=env,
+                       capture_output=True, text=True)
+    if p.returncode != 0 or "fn binary_result" not in p.stdout:
+        out.inconclusive.append("E3: MIR dump failed: " + p.stderr[-300:])
+        return
+    with open(mir, "w") as f:
+        f.write(p.stdout)
+    d = w.ext_crate("arith_driver")
+    env2 = dict(core.ENV)
+    env2["CARGO_TARGET_DIR"] = os.path.join(w.root, "target-arith-driver")
+    rc, o, _ = core.run_cmd(["cargo", "build", "--offline", "--quiet"], d, 900, env=env2)
+    exe = os.path.join(env2["CARGO_TARGET_DIR"], "debug", "arith_driver")
+    if rc != 0 or not os.path.exists(exe):
+        out.inconclusive.append("E3: native driver does not build: " + o[-300:])
+        return
+    res_path = os.path.join(w.root, "e3.json")
+    rc, o, dt = core.run_cmd(["python3-vt", os.path.join(core.VERIF, "e3", "run_e3.py"), "--mir", mir,
+                              "--src", os.path.join(w.ws, "yash-arith", "src", "ast.rs"), "--driver", exe, "--out", res_path],
+                             core.VERIF, 1800)
+    core.log(o.strip()[-400:])
+    if rc != 0 or not os.path.exists(res_path):
+        out.inconclusive.append("E3 runner failed: " + o[-300:])
+        return
+    with open(res_path) as f:
+        r = json.load(f)
+    out.engines.append("E3 mir2smt (nightly MIR -> QF_BV; z3 5.1 API, /usr/bin/z3 4.8.12 and cvc5 1.0 must all answer unsat)")
+    out.evaluations += r["stats"]["queries"]
+    nuns = sum(1 for ob in r.get("obligations", []) if ob["verdict"] == "unsat")
+    out.nontrivial += nuns
+    out.queries += r["stats"]["queries"]
+    out.solver_s += r["stats"]["solver_s"]
+    out.functions.update("yash_arith::eval::" + f for f in r.get("functions_translated", []))
+    ob = {"harness": "e3_binary_result_all_operators", "clause": "every operator returns the exact value or the documented error kind",
+          "bound": "lhs, rhs: all i64; all 29 binary operators; loop-free MIR, %s paths" % r.get("paths"),
+          "functions": ["yash_arith::eval::" + f for f in r.get("functions_translated", [])],
+          "stubs": ["std functions modelled by contract: " + ", ".join(r.get("std_functions_modelled", []))],
+          "verdict": "ok", "operators_unsat": nuns, "queries": r["stats"]["queries"], "solver_s": r["stats"]["solver_s"],
+          "validation": r.get("validation"), "planted_mutant_sat": r.get("planted_mutant_sat")}
+    known = core.load_known(PID)
+    if r["violations"]:
+        ob["verdict"] = "failed"
+        rdir = os.path.join(core.VERIF, "replays", PID)
+        os.makedirs(rdir, exist_ok=True)
+        rp = os.path.join(rdir, "e3_binary_result.json")
+        with open(rp, "w") as f:
+            json.dump({"property": PID, "cases": r["violations"]}, f, indent=1)
+        v = r["violations"][0]
+        key = "e3:" + v["operator"]
+        text = "%s(%s, %s): real code says %s, C semantics says %s" % (v["operator"], v["lhs"], v["rhs"], v["real"], v["spec"])
+        if key in known:
+            out.known_hits.append((key, known[key]))
+        else:
+            out.violations.append((key, rp, text))
+    elif r["inconclusive"]:
+        ob["verdict"] = "inconclusive"
+        out.inconclusive.append("E3: " + "; ".join(r["inconclusive"][:3]))
+    out.obligations.append(ob)
 
 
 def run(tier, seed, only=None):
@@ -46,9 +138,34 @@ def run(tier, seed, only=None):
         out.extra["injected"] = w.injected
         out.extra["transforms"] = w.transforms
         out.add_kani_results(res, sess, core.load_known(PID), PID)
+        if not only or "e3" in only:
+            run_e3(w, out)
 
     return core.guarded(out, body, trusted=["rustc MIR", "Kani 0.68 MIR->goto", "CBMC 6.11", "CaDiCaL"])
 
 
 def replay(path):
+    if path.endswith(".json"):
+        import json
+        import os
+        import subprocess
+        import sys
+        sys.path.insert(0, os.path.join(core.VERIF, "e3"))
+        w = core.Workspace("c03r")
+        d = w.ext_crate("arith_driver")
+        env2 = dict(core.ENV)
+        env2["CARGO_TARGET_DIR"] = os.path.join(w.root, "target-arith-driver")
+        core.run_cmd(["cargo", "build", "--offline", "--quiet"], d, 900, env=env2)
+        exe = os.path.join(env2["CARGO_TARGET_DIR"], "debug", "arith_driver")
+        with open(path) as f:
+            cases = json.load(f)["cases"]
+        bad = 0
+        for c in cases:
+            o = subprocess.run([exe], input="%s %s %s\n" % (c["operator"], c["lhs"], c["rhs"]), capture_output=True, text=True).stdout.strip()
+            core.log("%s(%s, %s): real=%s spec=%s" % (c["operator"], c["lhs"], c["rhs"], o, c["spec"]))
+            bad += o != c["spec"]
+        if bad:
+            core.log("VIOLATION property=%s replay=%s" % (PID, path))
+            return 1
+        return 0
     return core.generic_replay(PID, path, setup)
